@@ -323,6 +323,8 @@ class Interp:
         raise PyRaise(mkexc("NameError"))
 
     def e_JoinedStr(self, e, env):
+        if all(isinstance(v, ast.Constant) and isinstance(v.value, str) for v in e.values):
+            return VStr("".join(v.value for v in e.values))
         return VOpaque("f-string")
 
     def e_Attribute(self, e, env):
